@@ -23,3 +23,7 @@ package utils
 //@   modifies everything
 //@   maypanic
 //@   ensures keeps_url_object: req != nil && old(req.URL) != nil ==> req.URL != nil
+
+//@ iface net/http.ResponseWriter.Header
+//@   params self
+//@   ensures result != nil
